@@ -673,6 +673,11 @@ type jwsJob struct {
 }
 
 func runJwsJob(r *Runner, j jwsJob, idx int) {
+	submitJwsBytes(r, jwsJobBytes(j), j.label, fmt.Sprintf("%s-%d", j.label, idx), nil)
+}
+
+// jwsJobBytes: the envelope bytes a job describes
+func jwsJobBytes(j jwsJob) []byte {
 	id := getIdentity(j.keyID, j.n)
 	otherKey := "ec384-0"
 	if strings.HasPrefix(j.keyID, "ec384") {
@@ -701,8 +706,7 @@ func runJwsJob(r *Runner, j jwsJob, idx int) {
 	for _, m := range j.muts {
 		m.fn(b, ctx)
 	}
-	built := b.build()
-	submitJwsBytes(r, built.Bytes, j.label, fmt.Sprintf("%s-%d", j.label, idx), nil)
+	return b.build().Bytes
 }
 
 // submitJwsBytes runs the implementation on envelope bytes and submits the case
